@@ -7,6 +7,46 @@ from .analysis import flow
 from .facts import Point, op_local, op_place, op_int
 
 UNKNOWN = None
+CMP_OPS = ("Lt", "Le", "Gt", "Ge", "Eq", "Ne")
+SWAP = {"Lt": "Gt", "Le": "Ge", "Gt": "Lt", "Ge": "Le", "Eq": "Eq", "Ne": "Ne"}
+
+
+def iv_refine(iv, op, k, truth):
+    """interval (lo, hi, excluded) of x after learning that `x op k` is `truth`; None if infeasible"""
+    lo, hi, ex = iv
+    if not truth:
+        op = {"Lt": "Ge", "Le": "Gt", "Gt": "Le", "Ge": "Lt", "Eq": "Ne", "Ne": "Eq"}[op]
+    if op == "Lt":
+        hi = k - 1 if hi is None else min(hi, k - 1)
+    elif op == "Le":
+        hi = k if hi is None else min(hi, k)
+    elif op == "Gt":
+        lo = k + 1 if lo is None else max(lo, k + 1)
+    elif op == "Ge":
+        lo = k if lo is None else max(lo, k)
+    elif op == "Eq":
+        lo = k if lo is None else max(lo, k)
+        hi = k if hi is None else min(hi, k)
+    elif op == "Ne":
+        ex = ex | {k}
+    while lo is not None and lo in ex:
+        lo += 1
+    while hi is not None and hi in ex:
+        hi -= 1
+    if lo is not None and hi is not None and lo > hi:
+        return None
+    return (lo, hi, frozenset(e for e in ex if (lo is None or e >= lo) and (hi is None or e <= hi)))
+
+
+def iv_decide(iv, op, k):
+    """True / False if `x op k` is decided by the interval, else None"""
+    t = iv_refine(iv, op, k, True)
+    f = iv_refine(iv, op, k, False)
+    if t is None and f is not None:
+        return False
+    if f is None and t is not None:
+        return True
+    return None
 STD_VARIANTS = {
     "std::option::Option": ["None", "Some"], "core::option::Option": ["None", "Some"],
     "std::result::Result": ["Ok", "Err"], "core::result::Result": ["Ok", "Err"],
@@ -35,6 +75,8 @@ class Esp:
         # named bool / Option flags the code itself branches on are part of the state key (kept apart at joins)
         self.key_flags = sorted(l for l in self.flags if body.local_name(l) and (
             body.ty(l)["s"] == "bool" or body.ty(l)["head"].endswith("option::Option")))[:8]
+        # integer counters a spec asks to keep apart at joins (interval-refined by compare-with-constant branches)
+        self.key_flags += sorted(l for l in getattr(spec, "key_ints", ()) if l in self.flags and l not in self.key_flags)
 
     # -- which locals are tracked ---------------------------------------------------------
     def _flag_locals(self):
@@ -66,7 +108,26 @@ class Esp:
                         r = op_local(rv["a"])
                         if r is not None:
                             stack.append(r)
+                    elif rv.get("bin") in CMP_OPS:
+                        # comparison of an integer local with a constant: track the integer as an interval
+                        for x, y in ((rv["a"], rv["b"]), (rv["b"], rv["a"])):
+                            if op_local(x) is not None and "int" in y:
+                                stack.append(op_local(x))
         return out
+
+    def int_source(self, l):
+        """named local a comparison temp was copied from (single-definition copies only)"""
+        seen = set()
+        while l not in seen:
+            seen.add(l)
+            ds = [d for d in self.body.defs.get(l, []) if d[1] in ("assign", "call", "arg")]
+            if len(ds) != 1 or ds[0][1] != "assign" or "use" not in ds[0][2]["rv"]:
+                return l
+            r = op_local(ds[0][2]["rv"]["use"])
+            if r is None or self.body.local_name(l):
+                return l
+            l = r
+        return l
 
     # -- abstract evaluation --------------------------------------------------------------
     def eval_stmt(self, st, env):
@@ -108,9 +169,27 @@ class Esp:
             r = op_local(rv["a"])
             if r is not None and r in env and env[r][0] == "int":
                 val = ("int", 0 if env[r][1] else 1)
+        elif rv.get("bin") in CMP_OPS:
+            a, b = rv["a"], rv["b"]
+            op = rv["bin"]
+            if op_local(b) is not None and "int" in a:
+                a, b, op = b, a, SWAP[op]
+            x = op_local(a)
+            if x is not None and "int" in b:
+                x = self.int_source(x)
+                cur = env.get(x)
+                k = b["int"]
+                if cur and cur[0] == "int":
+                    cur = ("iv", cur[1], cur[1], frozenset())
+                if cur and cur[0] == "iv":
+                    d = iv_decide(cur[1:], op, k)
+                    if d is not None:
+                        val = ("int", 1 if d else 0)
+                if val is UNKNOWN:
+                    val = ("cmp", op, x, k)
         env = dict(env)
         # anything that was "discr_of l" is stale now
-        for k in [k for k, v in env.items() if v == ("discr_of", l)]:
+        for k in [k for k, v in env.items() if v == ("discr_of", l) or (v[0] == "cmp" and v[2] == l) or (v[0] in ("is_none_of", "is_some_of") and v[1] == l)]:
             del env[k]
         if val is UNKNOWN:
             env.pop(l, None)
@@ -131,6 +210,26 @@ class Esp:
                 return norm(cur[1]) not in [norm(x) for x in listed], env
             return norm(cur[1]) == norm(target_value), env
         env2 = env
+        if cur and cur[0] == "cmp":
+            _, op, x, k = cur
+            truth = None
+            if target_value is not None:
+                truth = target_value != 0
+            elif [int(v) for v, _ in t["targets"]] == [0]:
+                truth = True
+            if truth is None:
+                return True, env
+            xv = env.get(x)
+            if xv and xv[0] == "int":
+                xv = ("iv", xv[1], xv[1], frozenset())
+            base = xv[1:] if xv and xv[0] == "iv" else ((0 if self.body.ty(x)["s"].startswith("u") else None), None, frozenset())
+            r = iv_refine(base, op, k, truth)
+            if r is None:
+                return False, env
+            env2 = dict(env)
+            env2[l] = ("int", 1 if truth else 0)
+            env2[x] = ("iv",) + r if not (r[0] is not None and r[0] == r[1]) else ("int", r[0])
+            return True, env2
         if cur and cur[0] in ("is_none_of", "is_some_of"):
             src = cur[1]
             sv = env.get(src)
@@ -193,15 +292,19 @@ class Esp:
         start = start_pt or Point(0, 0)
         init_ts = init_ts if init_ts is not None else spec.initial()
         dq = deque()
+        self._queued = set()
         self._merge(start, init_ts, dict(init_env or {}), dq)
         steps = 0
         while dq:
-            pt = dq.popleft()
+            pt, skey = dq.popleft()
+            self._queued.discard((pt, skey))
             steps += 1
-            if steps > 400000:
+            if steps > 3000000:
                 raise RuntimeError("ESP did not converge in %s" % body.id)
             cur = self.states.get(pt, {})
-            for (ts, _kf), env in list(cur.items()):
+            if skey not in cur:
+                continue
+            for (ts, _kf), env in [(skey, cur[skey])]:
                 b, i = pt
                 if i < body.nstmts(b):
                     st = body.blocks[b]["stmts"][i]
@@ -270,13 +373,17 @@ class Esp:
         old = cur.get(key)
         if old is None:
             cur[key] = env
-            dq.append(pt)
+            if (pt, key) not in self._queued:
+                self._queued.add((pt, key))
+                dq.append((pt, key))
             return
         # join: keep agreeing bindings
         joined = {k: v for k, v in old.items() if env.get(k) == v}
         if joined != old:
             cur[key] = joined
-            dq.append(pt)
+            if (pt, key) not in self._queued:
+                self._queued.add((pt, key))
+                dq.append((pt, key))
 
 
 def norm(v):
